@@ -210,6 +210,8 @@ type c19Exclude struct {
 	RowExpr bool
 	IncKey  string // "" none
 	IncVal  *c19Val
+	Inc2Key string // second include entry ("" none)
+	Inc2Val *c19Val
 	IncExpr int // 0 literal, 1 the entry is an expression, 2 the whole include is an expression
 	ExcKey  string
 	ExcVal  *c19Val
@@ -235,6 +237,9 @@ func (c *c19Exclude) render() (src string, desc string) {
 		b.WriteString("        include:\n          - ${{ fromJSON(vars.INC) }}\n")
 	case c.IncKey != "":
 		b.WriteString("        include:\n          - {" + c.IncKey + ": " + c.IncVal.yaml() + "}\n")
+		if c.Inc2Key != "" {
+			b.WriteString("          - {" + c.Inc2Key + ": " + c.Inc2Val.yaml() + "}\n")
+		}
 	}
 	if c.ExcExpr {
 		b.WriteString("        exclude:\n          - ${{ fromJSON(vars.EXC) }}\n")
@@ -267,6 +272,10 @@ func (c *c19Exclude) reference() string {
 	if c.IncKey == c.ExcKey {
 		defined = true
 		cands = append(cands, c.IncVal)
+	}
+	if c.Inc2Key != "" && c.Inc2Key == c.ExcKey {
+		defined = true
+		cands = append(cands, c.Inc2Val)
 	}
 	if !defined {
 		return "nokey"
@@ -334,7 +343,7 @@ func c19ExcludeCase(r *vReport, c *c19Exclude, lint func(string) vLintResult) {
 func TestVerifC19(t *testing.T) {
 	r := vNewReport("C19")
 	defer r.Write(t)
-	r.Extra["rule"] = "value algebra V (scalars, sequences, mappings to depth 2, both written member orders): duplicate check on all rows of 2 and 3 values over V; exclude check on rows of <=2 values over V' x {no include, include same key, include-only key} x exclude {row key, include-only key, undefined key} x value in V', plus rows / include / include entries / exclude entries given by expressions, and single members replaced by expressions at every depth (8 shapes) in rows, include and exclude values; a sub-slice under every map iteration order (deviation 1). oracle = structural equality / containment by recursion. class = (check, reference verdict); non-trivial = something must be reported"
+	r.Extra["rule"] = "value algebra V (scalars, sequences, mappings to depth 2, both written member orders): duplicate check on all rows of 2 and 3 values over V; exclude check on rows of <=2 values over V' x {no include, include same key, include-only key; two include entries over 8 values each} x exclude {row key, include-only key, undefined key} x value in V', plus rows / include / include entries / exclude entries given by expressions, and single members replaced by expressions at every depth (8 shapes) in rows, include and exclude values; a sub-slice under every map iteration order (deviation 1). oracle = structural equality / containment by recursion. class = (check, reference verdict); non-trivial = something must be reported"
 	r.Extra["assumptions"] = []string{"'built from expressions' covers a whole row / include / entry and, for the exclude check, any single member at any depth (it may be anything); duplicate reports among expression members of one row are not claimed"}
 	lint := func(src string) vLintResult { return vLint(src, nil) }
 	if raw := vReplayInput(); raw != nil {
@@ -439,6 +448,36 @@ func TestVerifC19(t *testing.T) {
 					if idx%7001 == 0 {
 						src, _ := c.render()
 						r.Sample(map[string]any{"matrix": strings.TrimPrefix(src, c19Head), "reference_verdict": c.reference()})
+					}
+				}
+			}
+		}
+	}
+	// two include entries (same or different keys, row present or not): every include value is a candidate
+	{
+		small := Vs
+		if len(small) > 8 {
+			small = small[:8]
+		}
+		for _, row := range [][]*c19Val{nil, {small[0]}, {small[5]}} {
+			for _, k1 := range []string{"k", "inc"} {
+				for _, v1 := range small {
+					for _, k2 := range []string{"k", "inc", "other"} {
+						for _, v2 := range small {
+							for _, ek := range []string{"k", "inc"} {
+								for _, ev := range small {
+									idx++
+									if !r.Mine(idx) {
+										continue
+									}
+									if idx%4096 == 0 && r.Expired() {
+										return
+									}
+									c := &c19Exclude{Row: row, IncKey: k1, IncVal: v1, Inc2Key: k2, Inc2Val: v2, ExcKey: ek, ExcVal: ev}
+									c19ExcludeCase(r, c, lint)
+								}
+							}
+						}
 					}
 				}
 			}
